@@ -244,6 +244,13 @@ class Session:
             r, s = run(first_t)
         verdict = str(r)
         if verdict == "unknown":
+            # finite-domain case split: variables a hypothesis confines to finitely many values (0/1 flags) are
+            # enumerated; every case is decided by the solver with the values asserted as equalities
+            r_fd, s_fd = _finite_domain_split(cons, ax, full_t)
+            if r_fd is not None:
+                verdict, s = r_fd, s_fd
+                kind = kind + ":finite-domain-split"
+        if verdict == "unknown":
             # portfolio: ite-elimination + nlsat / smt pipelines (pure NRA after purification of UFs)
             for label, mk in _PORTFOLIO:
                 if has_uf and purify:
@@ -321,6 +328,74 @@ class Session:
         for q in self.queries:
             by[q.verdict] = by.get(q.verdict, 0) + 1
         return {"queries": len(self.queries), "by_verdict": by, "solver_s": round(self.solver_s, 3)}
+
+
+def _finite_domains(cons):
+    """{var: [numerals]} for top-level constraints Or(v == c1, v == c2, ...) / v == c (either orientation)."""
+    doms = {}
+
+    def eq_var_const(e):
+        if not z3.is_eq(e):
+            return None
+        a, b = e.arg(0), e.arg(1)
+        for v, c in ((a, b), (b, a)):
+            if z3.is_const(v) and v.decl().kind() == z3.Z3_OP_UNINTERPRETED and (z3.is_rational_value(c) or z3.is_int_value(c)):
+                return v, c
+        return None
+
+    def visit(c):
+        if z3.is_and(c):
+            for ch in c.children():
+                visit(ch)
+            return
+        alts = c.children() if z3.is_or(c) else [c]
+        pairs = [eq_var_const(a) for a in alts]
+        if not pairs or any(p is None for p in pairs):
+            return
+        v0 = pairs[0][0]
+        if all(z3.eq(p[0], v0) for p in pairs) and z3.is_or(c):
+            doms.setdefault(v0.get_id(), (v0, []))
+            vals = [p[1] for p in pairs]
+            old = doms[v0.get_id()][1]
+            doms[v0.get_id()] = (v0, vals if not old else [x for x in old if any(z3.eq(x, y) for y in vals)])
+    for c in cons:
+        visit(c)
+    return list(doms.values())
+
+
+def _finite_domain_split(cons, ax, full_t, max_cases=1024):
+    doms = _finite_domains(cons)
+    if not doms:
+        return None, None
+    n = 1
+    for _, vals in doms:
+        n *= max(1, len(vals))
+    if n > max_cases or n < 2:
+        return None, None
+    import itertools
+    per = max(2.0, min(10.0, 4 * full_t / n))
+    t_end = time.time() + 4 * full_t
+    unknown = False
+    for combo in itertools.product(*[vals for _, vals in doms]):
+        if time.time() > t_end:
+            return None, None
+        ctx = z3.Context()
+        s_ = z3.Solver(ctx=ctx)
+        s_.set("timeout", int(1000 * per))
+        for c in cons:
+            s_.add(c.translate(ctx))
+        for a in ax:
+            s_.add(a.translate(ctx))
+        for (v, _), val in zip(doms, combo):
+            s_.add((v == val).translate(ctx))
+        r = str(s_.check())
+        if r == "sat":
+            return "sat", s_
+        if r == "unknown":
+            unknown = True
+    if unknown:
+        return None, None
+    return "unsat", s_
 
 
 def _cvc5_decide(smt2, timeout_s):
